@@ -41,5 +41,96 @@ fn path_verify_short_key_total() {
     kani::cover!(matches!(r, Err(PathProofVerificationError::TooManySiblings)), "too-many-siblings reachable");
 }
 
+/// C08 scope contract + C18 totality of the path-proof consumers (BOUNDED NATIVE ENUMERATION, run
+/// with `cargo kani playback`; stands in for the symbolic harness CBMC could not finish):
+/// for every proof depth 0..=4 and 256 (fixed sibling values), leaf and terminator terminals, the
+/// proof is verified against the root computed with the real hash_path; then for the proven key
+/// and each of its 256 single-bit flips as probe:
+///  * confirm_value / confirm_nonexistence return Ok iff the probe agrees with the proven path on
+///    its first `depth` bits; Ok(true) from confirm_value only for exactly the proven leaf;
+///    Ok(false) from confirm_nonexistence only for the proven leaf's key;
+///  * verify_update with 1..=2 ops built from the probes returns (no panic) and rejects ops that
+///    are out of scope, duplicated or descending.
+#[cfg(test)]
+#[test]
+fn native_enum_path_confirm_scope_and_update_total() {
+    type B3 = crate::hasher::Blake3Hasher;
+    let prev_hook = std::panic::take_hook();
+    std::panic::set_hook(Box::new(|_| {}));
+    let mut calls = 0u64;
+    let mut failure: Option<String> = None;
+    let bit = |k: &KeyPath, i: usize| (k[i / 8] >> (7 - (i % 8))) & 1;
+    'outer: for &depth in &[0usize, 1, 2, 3, 4, 256] {
+        for key_first in [0x00u8, 0x5a, 0xff] {
+            let mut key = [0x33u8; 32];
+            key[0] = key_first;
+            for leaf_kind in 0..3 {
+                // 0: terminator, 1: leaf with the looked-up key, 2: leaf with another key under the path
+                // (a leaf whose key does not start with the proven path cannot sit in a proof that
+                // verifies against an honest root without a hash collision, so it is not enumerated:
+                // at depth 256 the path is the whole key and only the key itself qualifies)
+                if leaf_kind == 2 && depth == 256 {
+                    continue;
+                }
+                let mut other = key;
+                other[31] ^= 1;
+                let terminal = match leaf_kind {
+                    0 => PathProofTerminal::Terminator(crate::trie_pos::TriePosition::from_bitslice(&key.view_bits::<Msb0>()[..depth.max(1)])),
+                    1 => PathProofTerminal::Leaf(LeafData { key_path: key, value_hash: [7u8; 32] }),
+                    _ => PathProofTerminal::Leaf(LeafData { key_path: other, value_hash: [8u8; 32] }),
+                };
+                let siblings: Vec<Node> = (0..depth).map(|i| { let mut s = [0u8; 32]; s[1] = i as u8; s[31] = 1; s }).collect();
+                let proof = PathProof { terminal, siblings };
+                let root = hash_path::<B3>(proof.terminal.node::<B3>(), &key.view_bits::<Msb0>()[..depth], proof.siblings.iter().rev().cloned());
+                let v = match proof.verify::<B3>(key.view_bits::<Msb0>(), root) {
+                    Ok(v) => v,
+                    Err(_) => { failure = Some(format!("honest proof of depth {} rejected", depth)); break 'outer; }
+                };
+                for flip in 0..=256usize {
+                    let mut probe = key;
+                    if flip < 256 { probe[flip / 8] ^= 1 << (7 - (flip % 8)); }
+                    let in_scope = (0..depth).all(|i| bit(&probe, i) == bit(&key, i));
+                    calls += 1;
+                    let leaf = LeafData { key_path: probe, value_hash: [7u8; 32] };
+                    let r = std::panic::catch_unwind(|| (v.confirm_value(&leaf), v.confirm_nonexistence(&probe)));
+                    let (cv, cn) = match r {
+                        Ok(x) => x,
+                        Err(_) => { failure = Some(format!("confirm_* panicked (depth {}, flip {})", depth, flip)); break 'outer; }
+                    };
+                    if cv.is_ok() != in_scope || cn.is_ok() != in_scope {
+                        failure = Some(format!("scope check wrong: depth {} flip {} in_scope {} confirm_value {:?} confirm_nonexistence {:?}", depth, flip, in_scope, cv.is_ok(), cn.is_ok()));
+                        break 'outer;
+                    }
+                    if let Ok(b) = cv {
+                        let expect = v.terminal() == Some(&leaf);
+                        if b != expect { failure = Some(format!("confirm_value answered {} (expected {}) depth {} flip {}", b, expect, depth, flip)); break 'outer; }
+                    }
+                    if let Ok(b) = cn {
+                        let expect = v.terminal().map_or(true, |l| l.key_path != probe);
+                        if b != expect { failure = Some(format!("confirm_nonexistence answered {} (expected {}) depth {} flip {}", b, expect, depth, flip)); break 'outer; }
+                    }
+                    // update verification with this probe (and a second op) as operations
+                    for second in [None, Some(key), Some(probe)] {
+                        let mut ops = vec![(probe, Some([9u8; 32]))];
+                        if let Some(k2) = second { ops.push((k2, None)); }
+                        let sorted = ops.windows(2).all(|w| w[0].0 < w[1].0);
+                        let scoped = ops.iter().all(|o| (0..depth).all(|i| bit(&o.0, i) == bit(&key, i)));
+                        let upd = PathUpdate { inner: v.clone(), ops };
+                        calls += 1;
+                        match std::panic::catch_unwind(|| verify_update::<B3>(root, core::slice::from_ref(&upd))) {
+                            Err(_) => { failure = Some(format!("verify_update panicked (depth {}, flip {}, second {:?})", depth, flip, second.is_some())); break 'outer; }
+                            Ok(Ok(_)) if !(sorted && scoped) => { failure = Some(format!("verify_update accepted ops that are unsorted or out of scope (depth {}, flip {})", depth, flip)); break 'outer; }
+                            _ => {}
+                        }
+                    }
+                }
+            }
+        }
+    }
+    std::panic::set_hook(prev_hook);
+    println!("native_enum_path_confirm_scope_and_update_total: {} calls", calls);
+    assert!(failure.is_none(), "{}", failure.unwrap());
+}
+
 #[cfg(test)]
 include!("/verif/.build/playback/core_path_proof.inc");
